@@ -63,6 +63,11 @@ def run():
     env = drv.Env.get()
     cat = env.catalogue()
     todo, skipped = drv.tasks(env)
+    # debugging aid (off by default): VERIF_C20_FILTER="Cuboid,Sensor:pixel.size" restricts the run to some classes / leaves
+    flt = [x for x in os.environ.get("VERIF_C20_FILTER", "").split(",") if x]
+    if flt:
+        todo = [(c, l) for c, l in todo if c in flt or f"{c}:{l}" in flt]
+        rep.set("filtered", flt)
     d = workdir("traces/c20")
     jobs = [(i, cls, leaf, t, os.path.join(d, f"t{i:04d}.ndjson")) for i, (cls, leaf) in enumerate(todo)]
     # longest tasks first (deep leaves have more notations)
@@ -118,7 +123,10 @@ def run():
     ndef_cat = sum(len(v) for v in cat["fam"].values())
     missing_def = sorted(f"{f}.{leaf}" for f, v in cat["fam"].items() for leaf in v if f"{f}.{leaf}" not in def_leaves
                          and drv.leaf_type(leaf.split(".")) is not None)
-    if missing_def:
+    missing_ops = {"SetObj", "SetDef", "Reset", "Copy", "Show"} - set(stats["ops"])
+    if missing_ops:
+        raise MachineryError(f"actions of MC_Style never instantiated on the implementation: {sorted(missing_ops)}")
+    if missing_def and not flt:
         raise MachineryError(f"default leaves never assigned by any case: {missing_def[:10]}")
     rep.set("traces_validated_against_impl", n)
     rep.set("cases", stats["cases"])
@@ -129,6 +137,12 @@ def run():
     rep.set("alias_names", {"objects": sum(len(v) for v in cat["objalias"].values()), "defaults": sum(len(v) for v in cat["famalias"].values())})
     rep.set("leaves_skipped", len(skipped))
     rep.set("leaves_skipped_reasons", [f"{c}.{l}: {why}" for c, l, why in skipped])
+    types = [(c, l, drv.leaf_type(l.split("."))) for c, l in todo]
+    rep.set("substeps_not_applicable", {
+        "assign None (the setter does not store None: model3d.showdefault asserts bool, model3d.data turns None into [])": sum(1 for _, _, t_ in types if not t_["none_ok"]),
+        "invalid value (the label setter accepts any object via str())": sum(1 for _, _, t_ in types if t_["bad"] is None),
+        "object-side notations (the markers object is created inside show(); only defaults and show keywords reach it)": sum(1 for c, _, _ in types if c == "Markers")})
+    rep.set("value_kinds", sorted({t_["kind"] for _, _, t_ in types}))
     rep.set("steps_by_op", stats["ops"])
     rep.set("steps_by_notation", stats["notations"])
     rep.set("shows_through_magpylib_show", stats["real_shows"])
